@@ -110,6 +110,19 @@ func opSelect(_ *HState, a Event) Event {
 			ids = append(ids, id)
 		}
 		e["sel"] = ids
+		// a selection that was handed out stays what it was, whatever is selected afterwards
+		retainFn("Select", "coins", func() []byte {
+			var b []byte
+			for _, c := range res.Coins() {
+				tc, _ := c.(*tCoin)
+				if tc == nil {
+					b = append(b, 0xff, 0xff)
+					continue
+				}
+				b = append(b, byte(tc.id>>8), byte(tc.id))
+			}
+			return b
+		})
 	})
 	return panicField(e, p, msg)
 }
